@@ -860,6 +860,9 @@ ENV_RETARG0 = re.compile(r'^(_ZStlsISt11char_traitsIcEERSt13basic_ostreamIcT_ES5
 
 
 class Emitter:
+    tls_slots = 1
+    yield_re = None
+
     def __init__(self, mod, roots, stubs=None, externs=None, noops=None):
         self.m = mod
         self.roots = roots
@@ -1347,7 +1350,11 @@ class Emitter:
                 q = '__thread ' if g['tls'] else ''
                 if name == 'symx_terminated':
                     continue
-                if g['external']:
+                if g['tls'] and Emitter.tls_slots > 1 and not g['external']:
+                    # thread-local storage of an emulated thread system: one slot per logical thread, selected by symx_tid
+                    gdefs.append(('#undef %s\n%s %s__tls[%d] = ' % (self.gname(name), T, self.gname(name), Emitter.tls_slots), g['ty'], g['init'], Emitter.tls_slots,
+                                  '\n#define %s (%s__tls[symx_tid])' % (self.gname(name), self.gname(name))))
+                elif g['external']:
                     gdefs.append('%s%s %s; /* external */' % (q, T, self.gname(name)))
                 else:
                     gdefs.append(('%s%s %s = ' % (q, T, self.gname(name)), g['ty'], g['init']))
@@ -1359,7 +1366,10 @@ class Emitter:
         # initializers rendering may create new struct types; render first
         rendered = []
         for g in gdefs:
-            if isinstance(g, tuple):
+            if isinstance(g, tuple) and len(g) == 5:
+                one = self.init(g[1], g[2])
+                rendered.append(g[0] + '{' + ', '.join([one] * g[3]) + '};' + g[4])
+            elif isinstance(g, tuple):
                 rendered.append(g[0] + self.init(g[1], g[2]) + ';')
             else:
                 rendered.append(g)
@@ -1378,9 +1388,16 @@ class Emitter:
         for n, ct in sorted(self.nd_globals.items()):
             out.append('%s %s; /* last nondet value of this type: read by the trace parser */' % (ct, n))
         # globals: forward-declare all (initialisers may reference later globals, e.g. vtable -> typeinfo), then define
+        tls_hdr = False
         for name in self.used_globals:
             g = self.m.globals[name]
             if name == 'symx_terminated':
+                continue
+            if g['tls'] and Emitter.tls_slots > 1 and not g['external']:
+                if not tls_hdr:
+                    out.append('extern uint32_t symx_tid; /* current logical thread */')
+                    tls_hdr = True
+                out.append('extern %s %s__tls[%d];\n#define %s (%s__tls[symx_tid])' % (self.cty(g['ty']), self.gname(name), Emitter.tls_slots, self.gname(name), self.gname(name)))
                 continue
             out.append('extern %s%s %s;' % ('__thread ' if g['tls'] else '', self.cty(g['ty']), self.gname(name)))
         out.extend(rendered)
@@ -1472,6 +1489,8 @@ class Emitter:
         self.report['env'].append(name)
         if name in self.externs or name.startswith('nondet_') or name.startswith('symx_extern_'):
             return sig + ';', None
+        if name.startswith('__CPROVER_uninterpreted_'):
+            return sig.replace(cn + '(', name + '(', 1) + ';', None     # an uninterpreted function of the checker (Ackermann-expanded); defined in the native runtime
         if name.startswith('__CPROVER_') or name in ('symx_witness', 'symx_observe', 'symx_run_ctors'):
             return None, None
         if name in self.noops or name in ENV_NOOP_VOID:
@@ -1509,12 +1528,16 @@ class Emitter:
         decl = {}
         lines = []
         self.curf = f
+        yield_here = bool(Emitter.yield_re and Emitter.yield_re.search(f.name))
         # typed allocations: CBMC gives a dynamic object the type T[n] only when the size expression carries sizeof(T);
         # an untyped malloc(n) becomes a byte array and every struct access a byte_extract cascade (orders of magnitude slower)
         self.alloc_ty = {}
         self.cast_src = {}   # local defined by a pointer bitcast -> (source pointer type, source value)
+        self.ldef = {}       # local -> defining instruction (SSA)
         for lab, ins_list in f.blocks:
             for x in ins_list:
+                if x.get('dst'):
+                    self.ldef[x['dst']] = x
                 if x['op'] == 'bitcast' and x['a'][0] == 'local' and x['ty'][0] == 'ptr' and x['a'][1] not in self.alloc_ty:
                     self.alloc_ty[x['a'][1]] = x['ty'][1]
                 if x['op'] == 'bitcast' and x['ty'][0] == 'ptr' and x['sty'][0] == 'ptr' and x['dst'] is not None:
@@ -1592,10 +1615,12 @@ class Emitter:
             lines.append('%s: ;' % labels[lab])
             for x in ins_list:
                 op = x['op']
-                d = x['dst']
+                d = x.get('dst')
                 if op == 'phi':
                     decl[self.lname(d)] = self.cty(x['ty'])
                     continue
+                if yield_here and (op == 'store' or (op in ('call', 'invoke', 'asm') and not str((x.get('callee') or ('', ''))[1]).startswith('llvm.'))):
+                    lines.append('  symx_yield();')
                 st = self.emit_instr(x, lab, edge, decl, f)
                 if st:
                     lines.append('  ' + st)
@@ -1646,6 +1671,10 @@ class Emitter:
 
     def emit_instr(self, x, lab, edge, decl, f):
         op = x['op']
+        if op == 'and':
+            al = self.align_idiom(x)
+            if al:
+                return self.setv(x, decl, al)
         if op in BINOPS:
             return self.setv(x, decl, self.bin_expr(op, x['ty'], self.val(x['ty'], x['a']), self.val(x['ty'], x['b'])))
         if op == 'fneg':
@@ -1813,6 +1842,8 @@ class Emitter:
                 return 'symx_run_ctors();'
             if name == '__CPROVER_cover':
                 return '__CPROVER_cover(%s);' % arg(0)
+            if name.startswith('__CPROVER_uninterpreted_'):
+                self.use_func(name)
             if name.startswith('__CPROVER_'):
                 return ret('%s(%s)' % (name, ', '.join(arg(i) for i in range(len(args)))))
             if name.startswith('nondet_'):
@@ -1877,6 +1908,32 @@ class Emitter:
         fp = self.val(P(fty), callee)
         cargs = ', '.join(arg(i) for i in range(len(args)))
         return ret('((%s)%s)(%s)' % (self.fpty(fty), fp, cargs))
+
+    def align_idiom(self, x):
+        """(ptrtoint(p) + A) & ~A  ->  the address of p advanced by the padding that aligns it: kept as pointer arithmetic on p
+        (SYMX_ALIGN_PAD) so that the checker keeps the object identity and a constant offset"""
+        a, b = x['a'], x['b']
+        if a[0] == 'int':
+            a, b = b, a
+        if b[0] != 'int' or a[0] != 'local' or self.width(x['ty']) != 64:
+            return None
+        mask = b[1] & 0xFFFFFFFFFFFFFFFF
+        A = (~mask) & 0xFFFFFFFFFFFFFFFF
+        if A == 0 or A > 4095 or (A & (A + 1)) != 0:
+            return None
+        d = self.ldef.get(a[1])
+        if not d or d['op'] != 'add':
+            return None
+        u, v = d['a'], d['b']
+        if u[0] == 'int':
+            u, v = v, u
+        if v[0] != 'int' or v[1] != A or u[0] != 'local':
+            return None
+        pi = self.ldef.get(u[1])
+        if not pi or pi['op'] != 'ptrtoint':
+            return None
+        pv = self.val(pi['sty'], pi['a'])
+        return '((uint64_t)(uintptr_t)((uint8_t*)(%s) + SYMX_ALIGN_PAD(%s, %dUL)))' % (pv, pv, A)
 
     def alloc_size(self, x, size_expr):
         """size expression of an allocation, written as sizeof(T) * count when the result is used as a T*"""
@@ -2008,6 +2065,15 @@ class Emitter:
                 return ret('(%s == 0 ? %d : %s)' % (a, w, self.mask('__builtin_ctzll((uint64_t)%s)' % a, w)))
             if k == 'bswap':
                 return ret('__builtin_bswap%d(%s)' % (w, a))
+        m = re.match(r'llvm\.(fshl|fshr)\.i(\d+)', name)
+        if m and int(m.group(2)) in (8, 16, 32, 64):
+            w = int(m.group(2))
+            a, b, c = arg(0), arg(1), arg(2)
+            ut = 'uint%d_t' % w
+            sh = '((%s)(%s) %% %d)' % (ut, c, w)
+            if m.group(1) == 'fshl':
+                return ret('(%s == 0 ? (%s)(%s) : (%s)(((%s)(%s) << %s) | ((%s)(%s) >> (%d - %s))))' % (sh, ut, a, ut, ut, a, sh, ut, b, w, sh))
+            return ret('(%s == 0 ? (%s)(%s) : (%s)(((%s)(%s) << (%d - %s)) | ((%s)(%s) >> %s)))' % (sh, ut, b, ut, ut, a, w, sh, ut, b, sh))
         if name.startswith('llvm.trap') or name.startswith('llvm.debugtrap'):
             return 'SYMX_ON_ABORT;'
         if name.startswith('llvm.expect'):
@@ -2025,9 +2091,11 @@ class Emitter:
         raise NotImplementedError('intrinsic ' + name)
 
 
-def translate(ll_text, roots, stubs=None, externs=None, noops=None, asm_handler=None):
+def translate(ll_text, roots, stubs=None, externs=None, noops=None, asm_handler=None, tls_slots=1, yield_in=None):
     mod = parse_module(ll_text)
     Emitter.puns = {}
+    Emitter.tls_slots = tls_slots
+    Emitter.yield_re = re.compile(yield_in) if yield_in else None
     e = Emitter(mod, roots, stubs, externs, noops)
     e.asm_handler = asm_handler
     c = e.run()
